@@ -83,7 +83,7 @@ def teardown(ctx):
     contracts.detach_all()
 
 
-def make(ctx, rng, kind, units=1.0, pipeline=False, degenerate=False):
+def make(ctx, rng, kind, units=1.0, pipeline=False, degenerate=False, far=False):
     aa = ctx.aa
     H, W = int(rng.integers(3, 9)), int(rng.integers(3, 10))
     for _ in range(20):
@@ -125,6 +125,13 @@ def make(ctx, rng, kind, units=1.0, pipeline=False, degenerate=False):
         src = g * np.array([float(rng.uniform(0.5, 2.0)), float(rng.uniform(0.5, 2.0))]) + rng.normal(size=2)
         dk = "axis_stretch"
     src = src * units              # the source plane expressed in other units (e.g. radians instead of arc-seconds)
+    if far == "very":
+        # so far away (1e6 .. 1e7 extents) that interpolation weights computed from absolute coordinates are no longer resolvable;
+        # what stays decidable is index-valued: a point clearly outside the hull maps to its nearest vertex alone
+        src = src + np.array([1.0, -0.6]) * float(10.0 ** rng.uniform(6, 7)) * float(np.ptp(src, axis=0).max() or 1.0)
+    elif far:
+        # ... and far from the coordinate origin compared with the spacing of the points (1e3 .. 5e4 extents away)
+        src = src + np.array([1.0, -0.6]) * float(10.0 ** rng.uniform(3, 4.7)) * float(np.ptp(src, axis=0).max() or 1.0)
     if kind == "rect" and pipeline:
         # the mapper as the public pipeline builds it: mesh.Rectangular.mapper_grids_from with a border relocator; a third of the
         # traced sub-pixels are flung far outside (de-magnified centre), so relocation really moves points before the mesh is
@@ -161,6 +168,18 @@ def make(ctx, rng, kind, units=1.0, pipeline=False, degenerate=False):
     return dict(m=m, fam=fam, ps=ps, origin=origin, subs=subs, submode=submode, src=src, dk=dk, mesh=mesh, V=V, mapper=mp, kind=kind, units=units)
 
 
+def repro_tol(V, idx, ext):
+    """How well area-ratio weights computed in absolute coordinates can reproduce a point: 1e-9 of the mesh extent near the origin;
+    far from it the cancellation in the triangle areas costs u * |coordinate|^2 / (altitude of the triangle)."""
+    t = V[np.asarray(idx, dtype=int)]
+    if t.shape != (3, 2):
+        return 1e-9 * ext
+    e = np.array([t[1] - t[0], t[2] - t[1], t[0] - t[2]])
+    area2 = abs(e[0, 0] * e[1, 1] - e[0, 1] * e[1, 0])
+    h = area2 / max(float(np.hypot(e[:, 0], e[:, 1]).max()), 1e-300)
+    return max(1e-9 * ext, 256 * 2.2e-16 * float(np.abs(V).max()) ** 2 / max(h, 1e-300))
+
+
 def run_case(ctx, i):
     rng = gen.rng_for(ctx.seed, NO, i)
     if not ctx.begin("map:%d" % i):
@@ -170,7 +189,8 @@ def run_case(ctx, i):
     units = float(10.0 ** rng.uniform(-7, 2)) if (kind == "del" and i % 8 == 5) else 1.0
     pipeline = (kind == "rect" and i % 8 == 2)
     degenerate = (kind == "rect" and i % 16 == 4)
-    ok, c = ctx.guarded("mapper.construct", lambda: make(ctx, rng, kind, units, pipeline, degenerate))
+    far = "very" if (kind == "del" and i % 16 == 9) else (i % 8 in (1, 6))
+    ok, c = ctx.guarded("mapper.construct", lambda: make(ctx, rng, kind, units, pipeline, degenerate, far))
     if not ok:
         return
     mp, src, subs, m = c["mapper"], c["src"], c["subs"], c["m"]
@@ -241,13 +261,17 @@ def run_case(ctx, i):
         lmin = lam.min(-1)                        # (ns, np)
         best = lmin.max(0)                        # > 0 strictly inside some simplex, < 0 outside all
         nb3 = nb1 = 0
+        very_far = (far == "very")
         for q in range(nsub):
             sz = sizes[q]
             idx, w = maps[q, :sz], wts[q, :sz]
+            if very_far and best[q] >= -1e-6:
+                ctx.skipped["very_far_plane:inside_or_near_hull(weights_not_resolvable)"] += 1
+                continue
             if best[q] > 1e-9:
                 interp = True
                 good = (sz == 3 and tuple(sorted(int(v) for v in idx)) in simp and (w >= -1e-12).all() and abs(w.sum() - 1) <= 1e-9
-                        and float(np.abs(w @ V[idx] - src[q]).max()) <= 1e-9 * ext)
+                        and float(np.abs(w @ V[idx] - src[q]).max()) <= repro_tol(V, idx, ext))
                 nb3 += 1
                 ctx.check(good, "sub.delaunay", sub_index=q, point=src[q], vertices=idx, weights=w,
                           reproduced=lambda: (w @ V[idx]) if sz == len(w) and sz > 0 else None, vertex_coords=lambda: V[idx], **W)
@@ -280,12 +304,15 @@ def run_case(ctx, i):
     if order == 1:
         ctx.guarded("pixel_signals", lambda: mp.pixel_signals_from(signal_scale=float(rng.uniform(0.5, 2.0))))
     ctx.classes["pixel_signals_query:" + W["pixel_signals_query"]] += 1
-    ok, M = ctx.guarded("matrix.dense", lambda: _np(mp.mapping_matrix).astype(float))
+    vfar = (far == "very")
+    if vfar:
+        ctx.skipped["very_far_plane:matrix_and_encoding_checks(weights_not_resolvable)"] += 1
+    ok, M = (False, None) if vfar else ctx.guarded("matrix.dense", lambda: _np(mp.mapping_matrix).astype(float))
     if ok:
         ctx.check(ctx.close(M, Mref, 1e-12), "matrix.dense", got=M, expected=Mref, **W)
         rs = M.sum(1) if M.ndim == 2 else np.array([np.nan])
         ctx.check(M.shape == (n, P) and bool((M >= -1e-12).all()) and bool(np.all(np.abs(rs - 1) <= 1e-9)), "matrix.rows", row_sums=rs, **W)
-    ok, um = ctx.guarded("unique.decodes", lambda: mp.unique_mappings)
+    ok, um = (False, None) if vfar else ctx.guarded("unique.decodes", lambda: mp.unique_mappings)
     if ok:
         d2p, dw, pl = _np(um.data_to_pix_unique).astype(int), _np(um.data_weights).astype(float), _np(um.pix_lengths).astype(int)
         Dd = np.zeros((n, P))
@@ -312,6 +339,8 @@ def run_case(ctx, i):
         cls.append("nonsquare_mesh")
     if c["units"] != 1.0:
         cls = list(cls) + ["source_plane_units:1e%d" % int(np.floor(np.log10(c["units"])))]
+    if far:
+        cls = list(cls) + ["source_plane_far_from_origin"]
     ctx.case(m, subs, src, kind, nontrivial=(used >= 2 and (subs.max() > 1 or interp)), cls=cls,
              sample=lambda: {"kind": kind, "mask": m.astype(int).tolist(), "sub_sizes": subs.tolist(), "mesh_pixels": P,
                              "source_points": nsub, "distortion": c["dk"]})
